@@ -13,7 +13,7 @@ CFG = {
         {"variant": "sched-c10", "id": "C10i", "env": _RACE, "no_ulimit": True, "share": 0.15, "gomaxprocs": 4},
         {"variant": "sched-c10", "id": "C10s", "env": _RACE, "no_ulimit": True, "share": 0.85, "args": {"block": "6"}, "replay_priority": 1},
     ],
-    "budget": {"quick": 100, "thorough": 1200},
+    "budget": {"quick": 150, "thorough": 1500},
     "rule": "C10i: every (entry point, element count, pool size) triple; non-trivial = count > 0 and pool > 1. C10s: every schedule (choice vector) of every scenario up to the preemption bound; distinct by (scenario, choice vector)",
     "assumptions": COMMON_ASSUME + [
         "schedules explored at scheduling points = sync operations, channel operations, spawn/join and a Yield in the user callback; data races between those points are left to ThreadSanitizer, which runs on every explored schedule",
